@@ -303,7 +303,8 @@ def flow_chain(fb, chk):
     m = UpdaterModel(fb, chk, 'C19.R4')
     if m.ok:
         m.initial_state(chk)          # (sets the prefix under which the loop's own struct holds the constructed updater)
-        held = getattr(m, 'ctor_prefix', '') + ctor_field
+        pre_ = getattr(m, 'ctor_prefix', '')
+        held = ctor_field if (pre_ and ctor_field.startswith(pre_)) else pre_ + ctor_field
         same = m.field_of.get(3) == held
         never = all(held not in i['stores'] for i in m.infos)
         chk.ob('C19.R4', 'flow:field->record', same and never, m.dispatch.where(0),
